@@ -72,45 +72,71 @@ structure TimeCheck (α : Type) where
 def allcloseDefault (a b : α) : Bool :=
   decide (Qats.Pipeline.abs' (a - b) ≤ (1.0e-8 : α) + (1.0e-5 : α) * Qats.Pipeline.abs' b)
 
-/-- The deviations the keyword arguments take care of (`none`: `np.min(np.diff(t_new))` raises on fewer than 2 points). -/
+/-- Deviations handled by `resample` (`none`: `np.min(np.diff(t_new))` raises on fewer than 2 points). -/
+def handledRes (cs ce : α) (res : Option (Resample α)) : Option (List Dev) :=
+  match res with
+  | none => some []
+  | some (.step _) => some [.dt]
+  | some (.times ts) =>
+    match minL (Qats.Pipeline.diffs ts), maxL (Qats.Pipeline.diffs ts), ts.head?, ts.getLast? with
+    | some mn, some mx, some a, some b =>
+      some ((if allcloseDefault mn mx then [Dev.dt] else []) ++ (if cs ≤ a then [Dev.start] else []) ++
+        (if b ≤ ce then [Dev.stop] else []))
+    | _, _, _, _ => none
+
+/-- Deviations handled by `twin`. -/
+def handledTwin (cs ce : α) (twin : Option (α × α)) : List Dev :=
+  match twin with
+  | some (a, b) => (if cs ≤ a then [Dev.start] else []) ++ (if b ≤ ce then [Dev.stop] else [])
+  | none => []
+
+/-- The deviations the keyword arguments take care of. -/
 def handled (cs ce : α) (twin : Option (α × α)) (res : Option (Resample α)) : Option (List Dev) :=
-  let byRes : Option (List Dev) :=
-    match res with
-    | none => some []
-    | some (.step _) => some [.dt]
-    | some (.times ts) =>
-      match minL (Qats.Pipeline.diffs ts), maxL (Qats.Pipeline.diffs ts), ts.head?, ts.getLast? with
-      | some mn, some mx, some a, some b =>
-        some ((if allcloseDefault mn mx then [Dev.dt] else []) ++ (if cs ≤ a then [Dev.start] else []) ++
-          (if b ≤ ce then [Dev.stop] else []))
-      | _, _, _, _ => none
-  let byTwin : List Dev :=
-    match twin with
-    | some (a, b) => (if cs ≤ a then [Dev.start] else []) ++ (if b ≤ ce then [Dev.stop] else [])
-    | none => []
-  byRes.map (· ++ byTwin)
+  (handledRes cs ce res).map (· ++ handledTwin cs ce twin)
+
+structure Extrema (α : Type) where
+  dmax : α
+  dmin : α
+  smax : α
+  smin : α
+  emax : α
+  emin : α
+
+def extrema (ss : List (Summary α)) : Option (Extrema α) :=
+  match maxL (ss.map (·.dt)), minL (ss.map (·.dt)), maxL (ss.map (·.start)), minL (ss.map (·.start)),
+      maxL (ss.map (·.stop)), minL (ss.map (·.stop)) with
+  | some dmax, some dmin, some smax, some smin, some emax, some emin => some ⟨dmax, dmin, smax, smin, emax, emin⟩
+  | _, _, _, _, _, _ => none
+
+/-- step / start / end deviations, in the code's order. -/
+def rawDeviations (e : Extrema α) : List Dev :=
+  (if zeroSpread e.dmax e.dmin then [] else [.dt]) ++ (if zeroSpread e.smax e.smin then [] else [.start]) ++
+    (if zeroSpread e.emax e.emin then [] else [.stop])
+
+def dtgDefined (ss : List (Summary α)) : Bool := ss.any fun s => s.dtg.isSome
+
+def sameDtg (ss : List (Summary α)) : Bool :=
+  match ss with
+  | [] => true
+  | s0 :: _ => ss.all fun s => s.dtg == s0.dtg
+
+/-- recommended window: latest start, earliest end, smallest mean step. -/
+def recommended (e : Extrema α) : Option (α × α × α) := if e.smax < e.emin then some (e.smax, e.emin, e.dmin) else none
 
 /-- `TsDB._check_time_arrays(container, twin=…, resample=…)`. Errors: ValueError (empty container, degenerate `resample`
 array); TypeError when the answer is negative for a step/start/end deviation and the series do not overlap (the recommended
 actions are formatted from `common`, which is `None` then). -/
 def checkTimeArrays (ss : List (Summary α)) (twin : Option (α × α)) (res : Option (Resample α)) : Except Err (TimeCheck α) :=
-  match maxL (ss.map (·.dt)), minL (ss.map (·.dt)), maxL (ss.map (·.start)), minL (ss.map (·.start)),
-      maxL (ss.map (·.stop)), minL (ss.map (·.stop)), ss with
-  | some dmax, some dmin, some smax, some smin, some emax, some emin, s0 :: _ =>
-    let sameDtg := ss.all fun s => s.dtg == s0.dtg
-    let dtgDefined := ss.any fun s => s.dtg.isSome
-    let dtgRef := if dtgDefined && sameDtg then s0.dtg else none
-    let common := if smax < emin then some (smax, emin, dmin) else none
-    let devs0 : List Dev := (if zeroSpread dmax dmin then [] else [.dt]) ++ (if zeroSpread smax smin then [] else [.start]) ++
-      (if zeroSpread emax emin then [] else [.stop])
-    let devs1 : List Dev := if dtgDefined && !sameDtg then [.dtgRef] else devs0
-    match handled smax emin twin res with
+  match extrema ss with
+  | none => .error .value
+  | some e =>
+    match handled e.smax e.emin twin res with
     | none => .error .value
     | some h =>
+      let devs1 : List Dev := if dtgDefined ss && !sameDtg ss then [.dtgRef] else rawDeviations e
       let devs := devs1.filter fun d => !h.contains d
-      if common.isNone && (devs.contains .dt || devs.contains .start || devs.contains .stop) then .error .type
-      else .ok ⟨devs.isEmpty, dtgDefined, dtgRef, common, devs⟩
-  | _, _, _, _, _, _, _ => .error .value
+      if (recommended e).isNone && (devs.contains .dt || devs.contains .start || devs.contains .stop) then .error .type
+      else .ok ⟨devs.isEmpty, dtgDefined ss, if dtgDefined ss && sameDtg ss then (ss.head?.bind (·.dtg)) else none, recommended e, devs⟩
 
 /-- The time array a window leaves (`t[(t >= a) & (t <= b)]`); equals the first component of `Pipeline.window`. -/
 def windowT (a b : α) (t : List α) : List α := t.filter fun v => decide (a ≤ v ∧ v ≤ b)
